@@ -195,7 +195,7 @@ def gen_long(rng):
     """One request that has to step over more than a thousand interleaved reservations (every other unit of a
     long range is reserved), some global, some per-chip, listed in a shuffled order: the retry loop runs once per
     reservation it has to skip."""
-    n = rng.choice([1100, 1500])
+    n = rng.choice([1050, 1200])
     cons = [["reserve", 0, 2 * i + 1, 2 * i + 2, rng.choice([None, [0, 0]])] for i in range(n)]
     if rng.random() < 0.5:
         rng.shuffle(cons)
